@@ -227,4 +227,156 @@ theorem pumpLoop_result_length (now : Nat) :
       cases h
       rw [← hc]; exact finishLookup_length s q1
 
+/-! ## The service component of a composed step is a run of the service model -/
+
+/-- Inputs the service loop generates itself while it serves a lookup: a request for a peer the lookup
+selected, the end of the lookup, a look-up of a record by id (`find_enr`, which is what the
+`WhoAreYou` arm does to the state as well). -/
+def IsInternal : Svc.Input → Prop
+  | .queryEmit _ => True
+  | .queryFinished => True
+  | .whoAreYou _ _ => True
+  | .startQuery _ => True
+  | _ => False
+
+def internalRun (s : Svc) (l : List Svc.Input) : Svc := (s.run (l.map fun i => (({} : Oracle), i))).1
+
+theorem run_append_fst (s : Svc) (a b : List (Oracle × Svc.Input)) :
+    (s.run (a ++ b)).1 = ((s.run a).1.run b).1 := by
+  induction a generalizing s with
+  | nil => rfl
+  | cons p rest ih =>
+    obtain ⟨o, i⟩ := p
+    simp only [List.cons_append, Svc.run]
+    exact ih _
+
+theorem internalRun_append (s : Svc) (a b : List Svc.Input) :
+    internalRun s (a ++ b) = internalRun (internalRun s a) b := by
+  unfold internalRun
+  rw [List.map_append, run_append_fst]
+
+theorem internalRun_cons (s : Svc) (i : Svc.Input) (l : List Svc.Input) :
+    internalRun s (i :: l) = internalRun (s.step {} i).1 l := rfl
+
+theorem collect_internal : ∀ (ids : List Nat) (s : Svc) (u found : List Rec),
+    ∃ l : List Svc.Input, (∀ i ∈ l, IsInternal i) ∧ (collect s u ids found).1 = internalRun s l := by
+  intro ids
+  induction ids with
+  | nil => intro s u found; exact ⟨[], by simp, rfl⟩
+  | cons id ids ih =>
+    intro s u found
+    unfold collect
+    split
+    · rename_i i _
+      split
+      · exact ih s _ _
+      · exact ih s _ _
+    · have h1 : (s.findEnr id).1 = (s.step {} (.whoAreYou id { v6 := false, sock := 0 })).1 := rfl
+      generalize hz : s.findEnr id = z at h1
+      obtain ⟨s1, known⟩ := z
+      simp only at h1
+      cases known with
+      | some r =>
+        obtain ⟨l, hl, he⟩ := ih s1 u (found ++ [r])
+        refine ⟨.whoAreYou id { v6 := false, sock := 0 } :: l, ?_, ?_⟩
+        · intro i hi
+          cases hi with
+          | head => trivial
+          | tail _ h => exact hl i h
+        · rw [internalRun_cons, ← h1]; exact he
+      | none =>
+        obtain ⟨l, hl, he⟩ := ih s1 u found
+        refine ⟨.whoAreYou id { v6 := false, sock := 0 } :: l, ?_, ?_⟩
+        · intro i hi
+          cases hi with
+          | head => trivial
+          | tail _ h => exact hl i h
+        · rw [internalRun_cons, ← h1]; exact he
+
+theorem pumpLoop_internal (now : Nat) : ∀ (fuel : Nat) (s : Svc) (q : Q) (outs : List Out),
+    ∃ l : List Svc.Input, (∀ i ∈ l, IsInternal i) ∧ (pumpLoop now fuel s q outs).1 = internalRun s l := by
+  intro fuel
+  induction fuel with
+  | zero => intro s q outs; exact ⟨[], by simp, rfl⟩
+  | succ fuel ih =>
+    intro s q outs
+    unfold pumpLoop
+    generalize Query.next q now = r
+    obtain ⟨q1, st⟩ := r
+    cases st with
+    | waiting op =>
+      cases op with
+      | none => exact ⟨[], by simp, rfl⟩
+      | some p =>
+        simp only
+        have h1 : (s.sendRpcQuery p).1 = (s.step {} (.queryEmit p)).1 := rfl
+        split
+        · obtain ⟨l, hl, he⟩ := ih (s.sendRpcQuery p).1 (Query.onFailure q1 p) outs
+          refine ⟨.queryEmit p :: l, ?_, ?_⟩
+          · intro i hi
+            cases hi with
+            | head => trivial
+            | tail _ h => exact hl i h
+          · rw [internalRun_cons, ← h1]; exact he
+        · obtain ⟨l, hl, he⟩ := ih (s.sendRpcQuery p).1 q1 (outs ++ (s.sendRpcQuery p).2)
+          refine ⟨.queryEmit p :: l, ?_, ?_⟩
+          · intro i hi
+            cases hi with
+            | head => trivial
+            | tail _ h => exact hl i h
+          · rw [internalRun_cons, ← h1]; exact he
+    | waitingAtCapacity => exact ⟨[], by simp, rfl⟩
+    | finished =>
+      simp only
+      unfold finishLookup
+      obtain ⟨l, hl, he⟩ := collect_internal (Query.intoResult q1) (s.step {} .queryFinished).1
+        (match s.query with | some qq => qq.untrusted | none => []) []
+      refine ⟨.queryFinished :: l, ?_, ?_⟩
+      · intro i hi
+        cases hi with
+        | head => trivial
+        | tail _ h => exact hl i h
+      · rw [internalRun_cons]; exact he
+
+theorem pump_internal (now : Nat) (k : LSvc) :
+    ∃ l : List Svc.Input, (∀ i ∈ l, IsInternal i) ∧ (pump now k).1.svc = internalRun k.svc l := by
+  unfold pump
+  cases hq : k.q with
+  | none => exact ⟨[], by simp, rfl⟩
+  | some q => exact pumpLoop_internal now _ k.svc q []
+
+/-- A composed service step is the service step followed by inputs the service loop generates itself. -/
+theorem step_svc_internal (c : LCfg) (now : Nat) (k : LSvc) (o : Oracle) (inp : Svc.Input) :
+    ∃ l : List Svc.Input, (∀ i ∈ l, IsInternal i) ∧
+      (k.step c now (.svc o inp)).1.svc = internalRun (k.svc.step o inp).1 l := by
+  rw [step_svc]
+  exact pump_internal now _
+
+/-- Starting a lookup is a run of such inputs as well. -/
+theorem step_lookup_internal (c : LCfg) (now : Nat) (k : LSvc) (target : Nat) (n : Option Nat) :
+    ∃ l : List Svc.Input, (∀ i ∈ l, IsInternal i) ∧
+      (k.step c now (.lookup target n)).1.svc = internalRun k.svc l := by
+  cases hr : k.q.isSome with
+  | true => rw [step_lookup_running c now k target n hr]; exact ⟨[], by simp, rfl⟩
+  | false =>
+    have h0 : k.svc.startQuery target = (k.svc.step {} (.startQuery target)).1 := rfl
+    cases hs : (k.svc.startQuery target).query with
+    | none =>
+      rw [step_lookup_empty c now k target n hr hs]
+      refine ⟨[.startQuery target], ?_, ?_⟩
+      · intro i hi
+        cases hi with
+        | head => trivial
+        | tail _ h => cases h
+      · rw [internalRun_cons, ← h0]; rfl
+    | some qq =>
+      rw [step_lookup_start c now k target n qq hr hs]
+      obtain ⟨l, hl, he⟩ := pump_internal now { svc := k.svc.startQuery target, q := some (newQ c target n qq) }
+      refine ⟨.startQuery target :: l, ?_, ?_⟩
+      · intro i hi
+        cases hi with
+        | head => trivial
+        | tail _ h => exact hl i h
+      · rw [internalRun_cons, ← h0]; exact he
+
 end Discv5.Lookup
